@@ -280,6 +280,7 @@ pub struct PartResult {
     pub samples: Vec<Value>,
     pub per_scenario: Vec<Value>,
     pub capped: bool,
+    #[allow(dead_code)]
     pub completed_bound: usize,
 }
 
@@ -401,6 +402,10 @@ pub fn run(ctx: Ctx) -> ! {
     let cap = if ctx.thorough { 30_000_000 } else { 3_000_000 };
     let r1 = run_part(&ctx, bound, cap);
     let r2 = crate::c20_net2::run_part(&ctx);
+    let r3 = crate::c20_iface::run_part(&ctx);
+    if !r3.outcomes.contains_key("in-order") {
+        mc_core::report::machinery_failure("C20: the interface grid delivered no configuration in order (vacuous or broken rig)");
+    }
     // vacuity guard: schedules must have produced more than one delivery interleaving
     if r1.per_scenario.iter().all(|s| s["distinct_delivery_orders"].as_u64().unwrap_or(0) <= 1) {
         mc_core::report::machinery_failure("C20: no scenario produced more than one delivery order (vacuous)");
@@ -410,7 +415,7 @@ pub fn run(ctx: Ctx) -> ! {
     let cov = cov! {
         "states" => r1.points + r2.points,
         "transitions" => r1.points + r2.points,
-        "traces_validated_against_impl" => r1.schedules + r2.schedules,
+        "traces_validated_against_impl" => r1.schedules + r2.schedules + r3.configs,
         "samples" => samples,
         "schedules_net1" => r1.schedules,
         "schedules_net2" => r2.schedules,
@@ -419,6 +424,8 @@ pub fn run(ctx: Ctx) -> ! {
         "distinct_outcomes(delivery orders summed over scenarios)" => r1.distinct_orders + r2.distinct_orders,
         "net1_scenarios" => r1.per_scenario,
         "net2_scenarios" => r2.per_scenario,
+        "net2_interface_grid" => json!({"configurations": r3.configs, "messages_dispatched": r3.messages, "outcomes": r3.outcomes, "per_configuration": r3.per_config,
+            "rule": "one configuration = (queue shape, segments of the first large message, pipe capacity) executed on the real TcpInterface (dispatch(Send) for the whole queue, then the event loop) over an in-memory bearer inside a current-thread tokio runtime; each configuration run twice with identical observations; oracle: per mini-protocol arrival order = dispatch order, exactly once"}),
         "rule" => "states/transitions = scheduling points (one poll of one task of the real Muxer::run / Demuxer::run loops or an agent body) summed over all executed schedules; traces = complete schedules run to quiescence on the real code; every schedule with at most the stated number of deviations from the default scheduler is enumerated exactly once",
     };
     ctx.finish(
@@ -428,6 +435,7 @@ pub fn run(ctx: Ctx) -> ! {
             "tasks interact only through tokio mpsc channels and the duplex pipe (linearizable, runtime-agnostic); preemption inside a single poll is not modelled",
             "Plexer::spawn (two tokio::spawn calls) is replaced by Plexer::into_parts + the owned scheduler; the loops themselves are the real ones",
             "at most 6 agents x 2 chunks, delay bound as stated; not 200-chunk runs, not OS sockets",
+            "interface grid: the schedule inside one configuration is the current-thread tokio runtime's own (deterministic, checked by running twice); the grid varies what that schedule depends on (message sizes against the cooperative budget, pipe capacity, queue shape)",
         ],
     )
 }
